@@ -26,9 +26,14 @@ CLAIMED = {
    tech="deterministic simulation with fault injection: scripted io.Reader (seeded read partition, stalls, EOF forms, injected error) under the real scanners, reference splitter oracle, retained-slice aliasing re-check, tape shrinking and fresh-process replay"),
 }
 
+CLAIMED["C05"] = dict(
+   text="Two legs. A: seeded search over schedules, select ties, render-tick placement (fake clock) and stage latencies of the real batchers + extractor + RunAggregationLoop with the histogram render callback; monitors for mutual exclusion of Sample/render, termination (no deadlock, no panic, fake-time bound), final render after the last sample and equal to a sequential reference, and monotone intermediate renders. B: the same worlds free-running under the Go race detector. Evidence over explored runs, not proof.",
+   ref="DESIGN.md section 5 C05 and section 7",
+   note=NOTE + " Leg B: the interleaving is the real scheduler's (not tape-controlled); a report is sound, a clean leg is only as strong as the race detector's happens-before analysis over the executed accesses; simrt takes no lock and draws from no shared tape in that mode so that it adds no happens-before edges.",
+   tech=TECH + "; plus a free-running -race leg over the same seeded worlds for the data-race clause")
+
 NA = {
  "C03": "check under construction in this session (whole-CLI metamorphic world); will be claimed once its quick tier is green",
- "C05": "check under construction in this session",
  "C06": "check under construction in this session",
  "C07": "pure: a sequential data structure folded over a sample list; no schedule, clock or fault in it (the end state for orders the pipeline produces is compared to an independent fold by C03's oracle)",
  "C08": "pure function of (template, context): nothing to schedule or fault; input generation would not be simulation",
